@@ -55,10 +55,15 @@ def _check_batch(ctx, pairs, ref, hyp, eos, include_eos, cost, tier, tag, module
         # ---- full distance --------------------------------------------------------
         for api in (("functional", "module") if modules else ("functional",)):
             try:
+                r0, h0 = r_in.clone(), h_in.clone()
                 if api == "functional":
                     out = F.edit_distance(r_in, h_in, warn=False, **kw)
                 else:
-                    out = M.EditDistance(warn=False, **kw)(r_in, h_in)
+                    mod = M.EditDistance(warn=False, **kw)
+                    mod(h_in.flip(0), r_in.flip(0))  # one module object, an unrelated call first: no state may carry over
+                    out = mod(r_in, h_in)
+                if not (torch.equal(r0, r_in) and torch.equal(h0, h_in)):
+                    raise AssertionError("argument modified in place")
                 out = out.tolist()
                 err = None
             except Exception as e:  # a legal input must not raise
@@ -95,14 +100,20 @@ def _check_batch(ctx, pairs, ref, hyp, eos, include_eos, cost, tier, tag, module
                 continue  # no prefix exists, zero-row output; outside the statement
             for api in (("functional", "module") if modules else ("functional",)):
                 try:
+                    r0, h0 = r_in.clone(), h_in.clone()
                     if api == "functional":
                         out = F.prefix_edit_distances(
                             r_in, h_in, padding=padding, exclude_last=exclude_last, warn=False, **kw
                         )
                     else:
-                        out = M.PrefixEditDistances(
+                        mod = M.PrefixEditDistances(
                             padding=padding, exclude_last=exclude_last, warn=False, **kw
-                        )(r_in, h_in)
+                        )
+                        if h_in.size(0 if not batch_first else 1) > 0 or not exclude_last:
+                            mod(r_in.flip(0), h_in.flip(0))
+                        out = mod(r_in, h_in)
+                    if not (torch.equal(r0, r_in) and torch.equal(h0, h_in)):
+                        raise AssertionError("argument modified in place")
                     if batch_first:
                         out = out.t()
                     rows = H + (0 if exclude_last else 1)
